@@ -99,11 +99,11 @@ type opWeights []struct {
 
 var weights = map[focus]opWeights{
 	fC20: {{"imp", 60}, {"vote", 10}, {"blk", 8}, {"black", 3}, {"white", 3}, {"quitfull", 2}, {"regfull", 4}, {"gen", 3}, {"asset", 2}, {"hgt", 1}, {"apr", 1}, {"reg", 1}, {"aqt", 1}, {"quit", 1}},
-	fC21: {{"imp", 36}, {"vote", 5}, {"blk", 3}, {"black", 14}, {"white", 11}, {"quitfull", 5}, {"regfull", 8}, {"gen", 4}, {"asset", 2}, {"hgt", 5}, {"apr", 3}, {"reg", 2}, {"aqt", 1}, {"quit", 1}},
+	fC21: {{"imp", 30}, {"impat", 8}, {"vote", 5}, {"blk", 3}, {"black", 14}, {"white", 11}, {"quitfull", 5}, {"regfull", 8}, {"gen", 4}, {"asset", 2}, {"hgt", 5}, {"apr", 3}, {"reg", 2}, {"aqt", 1}, {"quit", 1}},
 	fC22: {{"imp", 68}, {"vote", 6}, {"blk", 8}, {"black", 3}, {"white", 3}, {"quitfull", 1}, {"regfull", 4}, {"gen", 3}, {"asset", 2}, {"hgt", 1}, {"apr", 1}},
 }
 
-func genOp(f focus) *rapid.Generator[opDef] {
+func genOp(f focus, gated []int) *rapid.Generator[opDef] {
 	ws := weights[f]
 	total := 0
 	for _, w := range ws {
@@ -129,6 +129,12 @@ func genOp(f focus) *rapid.Generator[opDef] {
 		}
 		op.C = rapid.IntRange(0, 5).Draw(t, "c")
 		switch k {
+		case "impat":
+			op.M, op.H, op.V, op.X = rapid.IntRange(0, 5).Draw(t, "m"), rapid.IntRange(0, 7).Draw(t, "h"), rapid.IntRange(0, 6).Draw(t, "v"), rapid.IntRange(0, 7).Draw(t, "x")
+			op.S = rapid.SampledFrom([]int{1, 2, 2, 3, 4, 0, 7}).Draw(t, "at")
+			if len(gated) > 0 && rapid.IntRange(0, 4).Draw(t, "gatedsrc") > 0 {
+				op.C = rapid.SampledFrom(gated).Draw(t, "gc")
+			}
 		case "imp":
 			op.M, op.H, op.V, op.X = rapid.IntRange(0, 5).Draw(t, "m"), rapid.IntRange(0, 7).Draw(t, "h"), rapid.IntRange(0, 6).Draw(t, "v"), rapid.IntRange(0, 7).Draw(t, "x")
 		case "vote":
@@ -168,8 +174,14 @@ func genHist(f focus) func(t *rapid.T) histCase {
 				}
 			}
 		}
+		var gated []int
+		for s, ch := range c.Chains {
+			if isGated(ch.Router) {
+				gated = append(gated, s)
+			}
+		}
 		maxOps := ev.Scale(24, 60)
-		c.Ops = append(c.Ops, rapid.SliceOfN(genOp(f), 1, maxOps).Draw(t, "ops")...)
+		c.Ops = append(c.Ops, rapid.SliceOfN(genOp(f, gated), 1, maxOps).Draw(t, "ops")...)
 		return c
 	}
 }
@@ -196,8 +208,9 @@ func TestC20(t *testing.T) {
 
 func TestC21(t *testing.T) {
 	ev.Drive(t, "C21", domainText+
-		"non-trivial: an import that is valid on the source side (quorum reached / proof verifies) is refused only because its destination chain is "+
-		"blacklisted or unregistered; distinct by JSON encoding of the case",
+		"non-trivial: an import whose proof/quorum is valid is refused only because its destination chain is blacklisted or unregistered, or (EVM-family sources, "+
+		"valid proof attached) only because its source chain is blacklisted/unregistered or its hsc/bytom router is not yet active at the height of the transaction; "+
+		"distinct by JSON encoding of the case",
 		genHist(fC21), runHist(fC21))
 }
 
